@@ -778,7 +778,8 @@ def r02_6(ctx) -> None:
                 parts_of(s_)
     tests = [n for n in cfg.nodes if n.kind == "branch" and isinstance(n.ast, ast.Compare) and "initial" in norm(n.ast)
              and isinstance(n.ast.ops[0], (ast.Is, ast.IsNot))]
-    if not (seeds == {"initial", "first item"} and bool(tests)) and ctx.census.get("decided:functools.reduce", 0) >= 12:
+    table_clean = not any(getattr(f_, "rule", "") == "R02.8" and "reduce" in str(getattr(f_, "unit", "")) for f_ in ctx.findings)
+    if not (seeds == {"initial", "first item"} and bool(tests)) and ctx.census.get("decided:functools.reduce", 0) >= 12 and table_clean:
         # (the choice of the seed is not written as one statement here - e.g. one private coroutine per call shape; with and
         # without initial, None as initial, empty and non-empty input are all cells of the reduce table R02.8, which decides)
         ctx.note("R02.6: the seed of reduce is not chosen in one statement in this shape of reduce; the reduce table (R02.8: "
